@@ -6,6 +6,7 @@ import (
 	"bytes"
 	"context"
 	"errors"
+	"net"
 	"net/netip"
 	"os"
 	"sync/atomic"
@@ -21,6 +22,7 @@ import (
 
 // natUplinkMmsg is used for passing information about relay uplink to the relay goroutine.
 type natUplinkMmsg struct {
+	state          *atomic.Pointer[net.UDPConn]
 	clientName     string
 	clientAddrPort netip.AddrPort
 	natConn        *conn.MmsgWConn
@@ -325,6 +327,7 @@ func (s *UDPNATRelay) recvFromServerConnRecvmmsg(ctx context.Context, lnc *udpRe
 
 					s.wg.Go(func() {
 						s.relayServerConnToNatConnSendmmsg(ctx, natUplinkMmsg{
+							state:          &entry.state,
 							clientName:     clientInfo.Name,
 							clientAddrPort: clientAddrPort,
 							natConn:        natConn.NewWConn(),
@@ -495,6 +498,13 @@ main:
 				zap.Duration("natTimeout", uplink.natTimeout),
 				zap.Error(err),
 			)
+		}
+
+		// Stop swaps the session state before expiring natConn's read deadline.
+		// If that happened while the deadline was being re-armed above, expire it again,
+		// or the downlink would keep Stop waiting for a full NAT timeout.
+		if uplink.state.Load() != uplink.natConn.UDPConn {
+			_ = uplink.natConn.SetReadDeadline(conn.ALongTimeAgo)
 		}
 
 		qpvecn := qpvec[:count]
